@@ -321,7 +321,12 @@ def frame_cases(draw, tier, manager):
             lat["anchor"] = ["area", draw(st.integers(0, len(areas) - 1))]
         else:
             lat["anchor"] = ["abs", draw(fl(-60, 60)), draw(fl(-60, 60)), draw(fl(2.0, 30.0))]
-    return {"gt": gt, "cfg": cfg, "areas": areas, "pts": pts, "apts": apts, "lat": lat, "cols": draw(st.sampled_from([3, 4, 4]))}
+    out = {"gt": gt, "cfg": cfg, "areas": areas, "pts": pts, "apts": apts, "lat": lat, "cols": draw(st.sampled_from([3, 4, 4]))}
+    if not manager:
+        # instance ids are optional (`uuid: Optional[str] = None`) and only meaningful for target_uuids, which the direct frame
+        # evaluation here does not use: hand-built ground truths carry none, or one id for several annotations
+        out["uuid_mode"] = draw(st.sampled_from(["unique", "unique", "none", "shared"]))
+    return out
 
 
 # ------------------------------------------------------------------------------------------------
@@ -769,8 +774,9 @@ def _classify_frame(ctx, d, box_cls, rows):
         ctx.cls("distance_dependent_scale")
 
 
-def _check_detection(ctx, d, res, rows, box_cls, thr, targets, sig):
-    """Three-way classification of the target ground truths."""
+def _check_detection(ctx, d, res, rows, box_cls, thr, targets, sig, objs=None):
+    """Three-way classification of the target ground truths. `objs`: the ground-truth objects handed to the library, in the
+    order of d["gt"], when results are to be attributed by object identity / pose instead of by uuid."""
     lists = {
         "success": res.detection_success_results,
         "fail": res.detection_fail_results,
@@ -781,6 +787,9 @@ def _check_detection(ctx, d, res, rows, box_cls, thr, targets, sig):
     for name, lst in lists.items():
         for r in lst:
             u = r.ground_truth_object.uuid
+            if objs is not None:
+                hit = [i for i, o in enumerate(objs) if o is r.ground_truth_object]
+                u = d["gt"][hit[0]]["uuid"] if hit else ("<not one of the objects given>", u)
             if u not in by_uuid:
                 ctx.violate(f"{sig}:unknown-object-reported", f"a {name} result carries an object with uuid {u!r} that is not a ground truth of the frame")
                 return
@@ -890,7 +899,9 @@ def frame(ctx, d):
         nd_inputs.append(arr[idx] if idx else np.zeros((0, d["cols"])))
         nd_rows.append([rows[i] for i in idx])
         nd_cols.append(idx)
-    objs = D.objs3d(d["gt"])
+    mode = d.get("uuid_mode", "unique")
+    ctx.cls("uuid_mode:" + mode)
+    objs = D.objs3d(d["gt"] if mode == "unique" else [dict(g, uuid=None if mode == "none" else "shared") for g in d["gt"]])
     res = None
     with ctx.under_test("SensingFrameResult.evaluate_frame"):
         fcfg = SensingFrameConfig(target_uuids=None, box_scale_0m=cfg["s0"], box_scale_100m=cfg["s100"], min_points_threshold=cfg["thr"])
@@ -898,7 +909,7 @@ def frame(ctx, d):
         res.evaluate_frame(objs, arr, nd_inputs)
     if res is None:
         return
-    _check_detection(ctx, d, res, rows, box_cls, cfg["thr"], {g["uuid"] for g in d["gt"]}, "frame")
+    _check_detection(ctx, d, res, rows, box_cls, cfg["thr"], {g["uuid"] for g in d["gt"]}, "frame", objs=None if mode == "unique" else objs)
     expected = []
     for idx, sub in zip(nd_cols, nd_rows):
         cls = []
